@@ -288,7 +288,7 @@ def run(tier, seed):
     r2, v2 = common.validate('FileStoreTrace', bad, name='FileStoreTraceBad')
     ok = v2[1][0] != 0
     chk.binding_demo = {'corrupted': 'one record missing at close', 'verdict': list(v2[1]), 'rejected_as_expected': ok}
-    if not ok:
+    if not ok and not chk.violations:
         raise tlc.MachineryError('binding demo failed')
     chk.exhaustive = full
     chk.assumptions = ['character-level encode/decode fidelity is sampled by the replay (adversarial classes x encodings x dialects), '
